@@ -31,4 +31,16 @@ def handleThreads : List String → Option String
     pure (match threadCount n v with | some k => toString k | none => "err")
   | _ => none
 
+/-- `treq <count:k|num-cpus|num-test-threads> <ncpu> <test threads>` → `ThreadsRequired::compute` -/
+def handleTreq : List String → Option String
+  | [k, n, t] => do
+    let n ← n.toNat?
+    let t ← t.toNat?
+    let tr ← (if k == "num-cpus" then some ThreadsRequired.numCpus else if k == "num-test-threads" then some .numTestThreads
+              else match k.splitOn ":" with
+                | ["count", c] => c.toNat?.map ThreadsRequired.count
+                | _ => none)
+    pure (toString (tr.compute n t))
+  | _ => none
+
 end Driver
